@@ -525,14 +525,16 @@ def compare_log_pair(spec, table, vals_p, vals_l, rec):
 def run_family(base_spec, models, table, rec, extra_cols=None):
     """Evaluates probability and log models of one structure / parameter point; all oracle clauses."""
     results = {}
+    refs = {}
     for model, mu in models:
         spec = dict(base_spec, model=model)
         if mu is not None:
             spec['mu'] = mu
-        ref = ref_spec_probs(spec, table)
+        if mu not in refs:
+            refs[mu] = ref_spec_probs(spec, table)
         vals = eval_spec(spec, table, extra_cols)
         is_log = model in LOG_OF
-        bad = check_values(spec, table, vals, ref, rec, log_model=is_log)
+        bad = check_values(spec, table, vals, refs[mu], rec, log_model=is_log)
         record_cases(spec, table, vals, bad, rec)
         results[(model, mu)] = (spec, vals)
     for (model, mu), (spec, vals) in results.items():
@@ -547,6 +549,13 @@ def _chunks(seq, n):
     return [seq[i:i + n] for i in range(0, len(seq), n)]
 
 
+def cnl_config(tier):
+    """(J, M, number of alpha splits, parameter assignments 'full'|'reduced', structures per task)"""
+    if tier == 'quick':
+        return [(2, 2, 3, 'full', 10), (2, 3, 3, 'reduced', 12), (3, 2, 3, 'reduced', 12)]
+    return [(2, 2, 3, 'full', 10), (2, 3, 3, 'full', 6), (3, 2, 3, 'full', 6), (3, 3, 3, 'reduced', 12), (4, 2, 3, 'reduced', 6)]
+
+
 def tasks(tier, seed):
     alph = alphabet(seed)
     quick = tier == 'quick'
@@ -558,26 +567,22 @@ def tasks(tier, seed):
     # (B) nested: every structure x every parameter assignment x scale; data-column forms
     for J in range(2, Jmax + 1):
         structs = R.nested_structures(alph['labels'][:J])
-        per = {2: 5, 3: 5, 4: 2}[J]
+        per = {2: 5, 3: 3, 4: 1}[J]
         for ch in _chunks(range(len(structs)), per):
             t.append(dict(part='nested', J=J, structs=ch, seed=seed, tier=tier))
     # (C) forms sweep (constants / Betas / None availabilities / constant choice / parameter forms), J <= 3
     for J in (2, 3):
         structs = R.nested_structures(alph['labels'][:J])
-        for ch in _chunks(range(len(structs)), 3):
+        for ch in _chunks(range(len(structs)), 2 if (J == 2 or not quick) else 3):
             t.append(dict(part='nested_forms', J=J, structs=ch, seed=seed, tier=tier))
     # (D) cnl
-    cfg = [(2, 2), (2, 3), (3, 2)] if quick else [(2, 2), (2, 3), (3, 2), (3, 3), (4, 2)]
-    for J, M in cfg:
-        n = len(R.cnl_structures(alph['labels'][:J], M, alph['splits']))
-        per = 12 if (J, M) != (4, 2) else 8
-        if (J, M) == (3, 3):
-            per = 20
+    for J, M, ns, pa, per in cnl_config(tier):
+        n = len(R.cnl_structures(alph['labels'][:J], M, alph['splits'][:ns]))
         for ch in _chunks(range(n), per):
-            t.append(dict(part='cnl', J=J, M=M, structs=ch, seed=seed, tier=tier))
-    for J, M in [(2, 2), (3, 2)]:
+            t.append(dict(part='cnl', J=J, M=M, ns=ns, pa=pa, structs=ch, seed=seed, tier=tier))
+    for J, M in ([(2, 2)] if quick else [(2, 2), (3, 2)]):
         n = len(R.cnl_structures(alph['labels'][:J], M, alph['splits']))
-        for ch in _chunks(range(n), 25):
+        for ch in _chunks(range(n), 10):
             t.append(dict(part='cnl_forms', J=J, M=M, structs=ch, seed=seed, tier=tier))
     # (E) user-supplied MEV terms
     for J in range(2, Jmax + 1):
@@ -590,7 +595,7 @@ def tasks(tier, seed):
     return t
 
 
-def std_table(alph, J, n_u, tier, aform='var'):
+def std_table(alph, J, n_u, tier, aform='var', one_shift=False):
     alts = alph['labels'][:J]
     us = uvectors(alph, J, n_u)
     pats = [[p[a] for a in alts] for p in R.avail_patterns(alts)]
@@ -598,7 +603,7 @@ def std_table(alph, J, n_u, tier, aform='var'):
         pats = pats[:1]
     # shifted copies of the corner utility vectors (product of the two extreme grid values)
     corner = [i for i, u in enumerate(us) if all(v in (g[0], g[-1]) for v, g in zip(u, ugrid_for(alph, J, n_u)))]
-    return Table(alts, us, pats, alph['shifts'], corner)
+    return Table(alts, us, pats, alph['shifts'][1:] if one_shift else alph['shifts'], corner)
 
 
 def run_task(task):
@@ -660,7 +665,7 @@ def tables_for_forms(alph, J, uf, af):
     if uf in ('num', 'fixbeta'):
         us_sets = [[us[1]], [us[-2]]]
     elif uf == 'freebeta':
-        us_sets = [[us[1], us[-2], us[0]]]
+        us_sets = [[us[1], us[-2]]]
     else:
         us_sets = [us]
     if af == 'none':
@@ -672,7 +677,7 @@ def tables_for_forms(alph, J, uf, af):
     out = []
     for uu in us_sets:
         for pp in pat_sets:
-            shift_us = [0] if uf in ('var', 'freebeta') else []
+            shift_us = [0] if uf == 'var' else []
             out.append(Table(alts, uu, pp, alph['shifts'][:1] if shift_us else [], shift_us))
     return out
 
@@ -689,79 +694,103 @@ def _part_logit(task, alph, rec):
             run_family(dict(base, forms=dict(u=uf, av=af, ch=cf)), [('logit', None), ('loglogit', None)], table, rec)
 
 
-def _nested_models(alph):
+def _scales(alph, tier):
+    """quick: the scale != 1 only (scale = 1 is compared with the unscaled model by C06); thorough: both."""
+    return alph['scale'][1:] if tier == 'quick' else alph['scale']
+
+
+def _nested_models(alph, tier='thorough'):
     ms = [('nested', None), ('lognested', None)]
-    for mu in alph['scale']:
+    for mu in _scales(alph, tier):
         ms += [('nested_mev_mu', mu), ('lognested_mev_mu', mu)]
     return ms
 
 
-def _cnl_models(alph):
+def _cnl_models(alph, tier='thorough'):
     ms = [('cnl', None), ('logcnl', None)]
-    for mu in alph['scale']:
+    for mu in _scales(alph, tier):
         ms += [('cnlmu', mu), ('logcnlmu', mu)]
     return ms
 
 
 def _part_nested(task, alph, rec):
     J = task['J']
+    tier = task['tier']
     alts = alph['labels'][:J]
     structs = R.nested_structures(alts)
-    n_u = 4 if J <= 3 else (3 if task['tier'] == 'thorough' else 2)
-    table = std_table(alph, J, n_u, task['tier'])
+    n_u = 4 if J <= 3 else 3
+    table = std_table(alph, J, n_u, tier)
     for si in task['structs']:
         alone, nests = structs[si]
         for mus in itertools.product(alph['mus'], repeat=len(nests)):
             base = dict(kind='nested', alts=alts, alone=list(alone), nests=[list(n) for n in nests], mus=list(mus))
             for mu in [None] + alph['scale'][1:]:
                 selfcheck_reference(dict(base, mu=mu), table, rec)
-            run_family(base, _nested_models(alph), table, rec)
+            run_family(base, _nested_models(alph, tier), table, rec)
         rec.sample(dict(part='nested', alts=alts, alone=alone, nests=nests, rows=len(table.groups) * J))
+
+
+PFORMS = ['numeric', 'fixbeta', 'freebeta', 'float']
+MUFORMS = ['float', 'fixbeta', 'numeric', 'freebeta']
+ALPHAFORMS = ['numeric', 'fixbeta', 'float']
+
+
+def forms_for(si, n):
+    """n consecutive entries of the form sweep, rotating with the structure index (every combination
+    of FORM_SWEEP meets every structure class over the enumeration; J = 2 gets all of them)."""
+    out = []
+    for k in range(n):
+        fi = (si * n + k) % len(FORM_SWEEP)
+        uf, af, cf = FORM_SWEEP[fi]
+        out.append(dict(u=uf, av=af, ch=cf, p=PFORMS[(fi + si) % 4], mu=MUFORMS[(fi + si // 2) % 4],
+                        alpha=ALPHAFORMS[(fi + si) % 3]))
+    return out
 
 
 def _part_nested_forms(task, alph, rec):
     J = task['J']
+    tier = task['tier']
     alts = alph['labels'][:J]
     structs = R.nested_structures(alts)
-    pforms = ['numeric', 'fixbeta', 'freebeta', 'float']
+    nforms = len(FORM_SWEEP) if (J == 2 or tier == 'thorough') else 2
+    models = [('nested', None), ('lognested', None), ('nested_mev_mu', alph['scale'][1]), ('lognested_mev_mu', alph['scale'][1])]
     for si in task['structs']:
         alone, nests = structs[si]
-        # parameter assignment rotates with the structure index: all nests distinct values where possible
+        # parameter assignment rotates with the structure index
         mus = [alph['mus'][(si + k + 1) % 3] for k in range(len(nests))]
         base = dict(kind='nested', alts=alts, alone=list(alone), nests=[list(n) for n in nests], mus=mus)
-        for fi, (uf, af, cf) in enumerate(FORM_SWEEP):
-            forms = dict(u=uf, av=af, ch=cf, p=pforms[fi % 4], mu=['float', 'fixbeta', 'numeric', 'freebeta'][fi % 4])
-            for table in tables_for_forms(alph, J, uf, af):
-                run_family(dict(base, forms=forms), _nested_models(alph), table, rec)
+        for forms in forms_for(si, nforms):
+            for table in tables_for_forms(alph, J, forms['u'], forms['av']):
+                run_family(dict(base, forms=forms), models, table, rec)
     rec.sample(dict(part='nested_forms', alts=alts, structures=task['structs']))
 
 
-def _cnl_mus(alph, M, full):
+def _cnl_mus(alph, M, mode):
     g = alph['mus']
-    if M == 2 or full:
+    if mode == 'full':
         return list(itertools.product(g, repeat=M))
+    if M == 2:
+        return [(g[0], g[2]), (g[1], g[1]), (g[2], g[1])]
     # 3 nests, reduced: all equal, and the cyclic arrangements of the three distinct values
     return [(g[0],) * 3, (g[1],) * 3, (g[2],) * 3, (g[0], g[1], g[2]), (g[1], g[2], g[0]), (g[2], g[0], g[1])]
 
 
 def _part_cnl(task, alph, rec):
     J, M = task['J'], task['M']
+    tier = task['tier']
     alts = alph['labels'][:J]
-    structs = R.cnl_structures(alts, M, alph['splits'])
-    thorough = task['tier'] == 'thorough'
-    n_u = {2: 4, 3: 3 if thorough else 2, 4: 2}[J]
-    table = std_table(alph, J, n_u, task['tier'])
-    mus_list = _cnl_mus(alph, M, full=(thorough and J <= 2) or M == 2)
-    if J == 4:
-        mus_list = [(alph['mus'][0], alph['mus'][2]), (alph['mus'][1], alph['mus'][1]), (alph['mus'][2], alph['mus'][1])]
+    structs = R.cnl_structures(alts, M, alph['splits'][:task['ns']])
+    n_u = {2: 4, 3: 3 if tier == 'thorough' else 2, 4: 2}[J]
+    table = std_table(alph, J, n_u, tier, one_shift=(J == 4))
+    mus_list = _cnl_mus(alph, M, task['pa'])
     for si in task['structs']:
         alone, nests = structs[si]
-        for mus in mus_list:
+        for mi, mus in enumerate(mus_list):
             base = dict(kind='cnl', alts=alts, alone=list(alone), nests=[dict(n) for n in nests], mus=list(mus))
-            if si % 7 == 0:
+            if (si + mi) % 5 == 0:
                 for mu in [None] + alph['scale'][1:]:
                     selfcheck_reference(dict(base, mu=mu), table, rec)
-            run_family(base, _cnl_models(alph), table, rec)
+            run_family(base, _cnl_models(alph, tier), table, rec)
     rec.sample(dict(part='cnl', alts=alts, M=M, first=structs[task['structs'][0]], rows=len(table.groups) * J))
 
 
@@ -769,17 +798,30 @@ def _part_cnl_forms(task, alph, rec):
     J, M = task['J'], task['M']
     alts = alph['labels'][:J]
     structs = R.cnl_structures(alts, M, alph['splits'])
-    pforms = ['numeric', 'fixbeta', 'freebeta', 'float']
-    aforms = ['numeric', 'fixbeta', 'float']
+    models = [('cnl', None), ('logcnl', None), ('cnlmu', alph['scale'][1]), ('logcnlmu', alph['scale'][1])]
     for si in task['structs']:
         alone, nests = structs[si]
         mus = [alph['mus'][(si + k + 1) % 3] for k in range(M)]
         base = dict(kind='cnl', alts=alts, alone=list(alone), nests=[dict(n) for n in nests], mus=mus)
-        uf, af, cf = FORM_SWEEP[si % len(FORM_SWEEP)]
-        forms = dict(u=uf, av=af, ch=cf, p=pforms[si % 4], alpha=aforms[si % 3], mu=['float', 'fixbeta', 'numeric', 'freebeta'][si % 4])
-        for table in tables_for_forms(alph, J, uf, af):
-            run_family(dict(base, forms=forms), _cnl_models(alph), table, rec)
+        for forms in forms_for(si, 1):
+            for table in tables_for_forms(alph, J, forms['u'], forms['av']):
+                run_family(dict(base, forms=forms), models, table, rec)
     rec.sample(dict(part='cnl_forms', alts=alts, M=M, structures=task['structs'][:3]))
+
+
+def usermev_generators(alph, J):
+    alts = alph['labels'][:J]
+    gens = []
+    for si, (alone, nests) in enumerate(R.nested_structures(alts)):
+        if not nests:
+            continue
+        mus = [alph['mus'][(si + k + 1) % 3] for k in range(len(nests))]
+        gens.append((dict(type='nested', alone=list(alone), nests=[list(n) for n in nests], mus=mus), alph['scale'][si % 2]))
+    cn = R.cnl_structures(alts, 2, alph['splits'][:1], with_alone=(J == 2))
+    for si, (alone, nests) in enumerate(cn):
+        gens.append((dict(type='cnl', alone=list(alone), nests=[dict(n) for n in nests], mus=[alph['mus'][2], alph['mus'][1]]),
+                     alph['scale'][(si + 1) % 2]))
+    return gens
 
 
 def _part_usermev(task, alph, rec):
@@ -787,19 +829,10 @@ def _part_usermev(task, alph, rec):
     generating function the library does not know about)."""
     J = task['J']
     alts = alph['labels'][:J]
-    gens = []
-    for alone, nests in R.nested_structures(alts):
-        if not nests:
-            continue
-        mus = [alph['mus'][(k + 1) % 3] for k in range(len(nests))]
-        for gmu in alph['scale']:
-            gens.append((dict(type='nested', alone=list(alone), nests=[list(n) for n in nests], mus=mus), gmu))
-    for alone, nests in R.cnl_structures(alts, 2, alph['splits'][:2]):
-        gens.append((dict(type='cnl', alone=list(alone), nests=[dict(n) for n in nests], mus=[alph['mus'][2], alph['mus'][1]]),
-                     alph['scale'][1]))
+    gens = usermev_generators(alph, J)
     n_u = 3 if J <= 3 else 2
-    for gen, gmu in gens:
-        for af in ('var', 'none'):
+    for gi, (gen, gmu) in enumerate(gens):
+        for af in (('var', 'none') if gi % 3 == 0 else ('var',)):
             table = std_table(alph, J, n_u, task['tier'], aform=af)
             spec = dict(kind='usermev', alts=alts, gen=gen, gmu=gmu, forms=dict(av=af))
             cols = user_logGi_columns(spec, table)
